@@ -29,7 +29,8 @@ for i in ids:
     for p in ([prop] if prop in claimed else []) + [c for c in claimed if c!=prop]:
         r=sh('cd %s && ./vcheck %s' % (VERIF,p), env=env)
         obs=sorted(set(re.findall(r'obligation=(\S+)', r.stdout)))
-        row[p]={'exit':r.returncode,'obligations':obs[:6]}
+        rc = r.returncode if (r.returncode != 1 or 'VIOLATION property=' in r.stdout) else 3   # 3: checker crashed (no verdict)
+        row[p]={'exit':rc,'obligations':obs[:6]}
     results[i]=row
     own=row.get(prop,{}).get('exit','unclaimed')
     others=[p for p,v in row.items() if p!=prop and v['exit']==1]
